@@ -9,10 +9,10 @@ use crate::runner::*;
 use crate::tape::Tape;
 use crate::with_spec;
 
-pub const RULE: &str = "model-based: valid writer call sequences (Start known-size with optional width | Start unknown-size | leaf | Full | End, cut at a random point and ended by flush()/into_inner()) generated from a conformant forest; \
+pub const RULE: &str = "model-based: valid writer call sequences (Start known-size with optional width | Start unknown-size | leaf | Full | End, cut at a random point and ended by flush()/into_inner()) generated from a conformant forest; a third of the sequences also contain calls that must be refused (C19's kinds), a third hand some leaves over through write_raw(); \
 the model tracks the open stack with known/unknown flags and the tags accepted so far. After EVERY call on a recording destination D: D extends the previous D (never retracted or altered) and is a prefix of the final output; \
 after a successful leaf / Full / End while the model has no known-size master open, the strict iterator over D yields exactly the accepted tags followed by the Ends of the still-open (unknown-size) masters innermost first; \
-while a known-size master is open, len(D) <= the offset of the outermost such master's first byte in the final output; after flush()/into_inner() D parses to all tags with all Ends. \
+while a known-size master is open, len(D) <= the offset of the outermost such master's first byte in the final output; after flush()/into_inner() D parses to all tags with all Ends. Second stage: a master End refused because the content does not fit the requested width leaves the master open — whatever the following calls return, nothing of it may reach D. \
 Non-trivial: both invariants were exercised by the sequence — the destination was parsed after a completed write while an unknown-size master was still open, and a known-size master was open at some point (or: an unknown-size master with >= 2 element writes inside it and later a known-size master); distinct by the op sequence.";
 
 pub const ASSUMPTIONS: &[&str] = &[
